@@ -25,6 +25,15 @@ func c08Exec(op string) string {
 		if c.err != nil {
 			return "bad-op " + c.err.Error()
 		}
+		// (the same arguments were used a moment ago under another separator: what they mean is decided
+		// by the separator in force now)
+		for _, other := range []string{":", "|"} {
+			if other != sep && len(subs) > 0 && strings.Contains(subs[0], "|") && strings.Contains(subs[0], ":") {
+				mxj.SetFieldSeparator(other)
+				mxj.Map(m).ValuesForKey(key, subs...)
+				mxj.Map(m).ValuesForPath(key, subs...)
+			}
+		}
 		mxj.SetFieldSeparator(sep)
 		vs, err := mxj.Map(m).ValuesForKey(key, subs...)
 		// ValueForKey is the first of those values, and the documented error when there is none
@@ -257,6 +266,13 @@ func c08Gen(r *Rng, n int) []string {
 				subs = genSubkeys(r, m, sep)
 			}
 			ops = append(ops, fmt.Sprintf("vfk %s %s %s %s %s", encStr(sep), ms, encStr(key), encStrList(subs), pfTable(sep, subs)))
+			if r.P(6) {
+				// arguments that parse under two separators (the exec first uses them under the other one)
+				twoWay := []string{r.Pick(plainKeys) + "|" + r.Pick([]string{"x", "a", "1"}) + ":" + r.Pick([]string{"b", "x", "string"})}
+				for _, s2 := range []string{":", "|"} {
+					ops = append(ops, fmt.Sprintf("vfk %s %s %s %s %s", encStr(s2), ms, encStr(key), encStrList(twoWay), pfTable(s2, twoWay)))
+				}
+			}
 			if r.P(40) && key != "*" {
 				ops = append(ops, fmt.Sprintf("pfk %s %s", ms, encStr(key)))
 			}
@@ -294,6 +310,7 @@ func pickSubValue(r *Rng, m map[string]interface{}) interface{} {
 func init() {
 	register(&Prop{
 		ID:        "C08",
+		Ambient:   ambientQueryOpts,
 		Rule:      "Maps as for C07; keys drawn from the Map's alphabet (present at several depths, inside lists, absent, '*'); sub-key conditions derived from entries that occur in the Map (typed string/bool/num, '*' wildcard, '!' negation, malformed specs, alternative field separators); non-trivial = non-empty result / at least one path / predicate true; distinct = distinct op lines",
 		Gen:       c08Gen,
 		Exec:      c08Exec,
